@@ -44,6 +44,8 @@ enum Conn {
 }
 
 const REPLY_MASK: u32 = 0xA5C3_96F0;
+/// how long a connect against a full queue is left alone before the helper makes room
+const MIN_FULL_WAIT: Duration = Duration::from_millis(3);
 
 fn token(i: usize) -> [u8; 4] {
     ((i as u32).wrapping_mul(0x9E37_79B1) ^ 0x00C1_6C16).to_le_bytes()
@@ -221,11 +223,23 @@ fn inner(c: &OrderCase) -> Result<CaseReport, Stop> {
                     Conn::R(b.libc_connect()?)
                 } else {
                     let full = pending >= capacity;
+                    let pending_at_call = pending;
                     // queue full: the connect can only complete once somebody accepts
+                    // The helper accepts one connection once the call has been under way for
+                    // MIN_FULL_WAIT + delay_us (a connect that waits is still inside the call
+                    // then), or as soon as the call has returned (a connect that gave up must
+                    // not keep the helper waiting). Either way it does accept, so a connect
+                    // that waits for room always gets it.
+                    let done = std::sync::Arc::new(std::sync::atomic::AtomicBool::new(false));
                     let helper = if full {
                         let lfd = listener.raw();
+                        let done2 = done.clone();
                         Some(std::thread::spawn(move || {
-                            std::thread::sleep(Duration::from_micros(delay_us as u64));
+                            let t0 = std::time::Instant::now();
+                            let wait = MIN_FULL_WAIT + Duration::from_micros(delay_us as u64);
+                            while !done2.load(std::sync::atomic::Ordering::Acquire) && t0.elapsed() < wait {
+                                std::thread::sleep(Duration::from_micros(50));
+                            }
                             libc_accept(lfd)
                         }))
                     } else {
@@ -240,6 +254,7 @@ fn inner(c: &OrderCase) -> Result<CaseReport, Stop> {
                         no_panic("UnixStream::connect", || UnixStream::connect(&up)).map(|r| r.map(Tiny::U))
                     };
                     let log = sc::verif::log_end();
+                    done.store(true, std::sync::atomic::Ordering::Release);
                     if let Some(h) = helper {
                         match h.join().expect("helper") {
                             Ok(fd) => {
@@ -263,7 +278,7 @@ fn inner(c: &OrderCase) -> Result<CaseReport, Stop> {
                             if full && ek(&e) == EK::Os(EAGAIN) {
                                 return Err(stop_fail(
                                     "UnixStream::connect|EAGAIN|backlog full",
-                                    format!("blocking UnixStream::connect against a listener whose queue was full ({pending} pending, capacity {capacity}) returned {e} instead of completing when the peer accepted ({} us later)", delay_us),
+                                    format!("blocking UnixStream::connect against a listener whose queue was full ({pending_at_call} connections pending, libc listen backlog {} holds {capacity}) returned {e} instead of completing when the peer accepted (a helper thread accepts one connection 3 ms + {} us after the call starts, or once the call has returned)", c.backlog, delay_us),
                                 ));
                             }
                             return Err(unexpected(opname, &e, if full { "listener queue full, peer accepts" } else { "listener has room" }));
